@@ -155,6 +155,66 @@ def _compiled_inputs(rng: random.Random, n: int) -> list[dict]:
     return out
 
 
+def unbounded_design(rep, thorough: bool) -> dict:
+    """CacheDesign.tla = the design without call / step bounds.  TLC exhaustively (3 ids x 2 keys) in every run; in the thorough
+    tier also the TLAPS proof for arbitrary Ids and Keys and Apalache's inductive-invariant check, each with its vacuity guard
+    (the pinned tree's deviation must break it)."""
+    import shutil
+    import subprocess
+    out = {}
+    r = common.run_tlc("CacheDesign", "CacheDesign.cfg")
+    rep.add_tlc(r)
+    if r["inv_errors"]:
+        rep.violation("cache-design-unbounded", {"tlc": r["out"][-1500:]})
+    out["tlc_states_3ids_2keys"] = r["distinct"]
+    try:
+        r2 = common.run_tlc("CacheDesign", "CacheDesign_pinned.cfg", cont=False)
+        dev = r2["inv_errors"] > 0
+    except common.MachineryError:
+        dev = False
+    if not dev:
+        raise common.MachineryError("vacuity guard: CacheDesign with ClearBeforeSwitchPass = FALSE no longer violates CacheTransparent")
+    if not thorough:
+        return out
+    sc = os.path.join(common.scratch(), "proof")
+    os.makedirs(sc, exist_ok=True)
+    for f in ("CacheDesign.tla", "MC_CacheDesign.tla", "MC_CacheDesignPinned.tla", "proofs/CacheDesignProof.tla"):
+        shutil.copy(os.path.join(common.SPEC, f), sc)
+    if shutil.which("tlapm"):
+        p = subprocess.run(["tlapm", "--threads", "8", "CacheDesignProof.tla"], cwd=sc, capture_output=True, text=True, timeout=1800)
+        m = [ln for ln in (p.stdout + p.stderr).splitlines() if "obligations" in ln]
+        out["tlaps"] = m[-1].strip() if m else "no verdict"
+        if p.returncode != 0 or not m or "proved" not in m[-1] or "failed" in m[-1]:
+            rep.violation("cache-design-proof", {"tlapm": (p.stdout + p.stderr)[-1500:]})
+        # the deviation must make the proof fail (exactly the NextPhase step)
+        with open(os.path.join(sc, "CacheDesignProof.tla")) as fh:
+            src = fh.read()
+        with open(os.path.join(sc, "CacheDesignProofDev.tla"), "w") as fh:
+            fh.write(src.replace("ClearBeforeSwitchPass = TRUE", "ClearBeforeSwitchPass = FALSE").replace("MODULE CacheDesignProof", "MODULE CacheDesignProofDev"))
+        p2 = subprocess.run(["tlapm", "--threads", "8", "CacheDesignProofDev.tla"], cwd=sc, capture_output=True, text=True, timeout=1800)
+        if p2.returncode == 0:
+            raise common.MachineryError("vacuity guard: the TLAPS proof goes through for the pinned tree's deviation as well")
+        out["tlaps_deviation"] = "proof fails, as it must"
+    else:
+        out["tlaps"] = "skipped: tlapm not on PATH"
+    if shutil.which("apalache-mc"):
+        def apa(args):
+            return subprocess.run(["apalache-mc", "check", "--out-dir=" + os.path.join(sc, "apa")] + args, cwd=sc, capture_output=True, text=True, timeout=1800)
+        a1 = apa(["--init=Init", "--inv=IndInv", "--length=0", "MC_CacheDesign.tla"])
+        a2 = apa(["--init=IndInv", "--inv=IndInv", "--length=1", "MC_CacheDesign.tla"])
+        ok = all("The outcome is: NoError" in (a.stdout + a.stderr) for a in (a1, a2))
+        out["apalache_inductive_3x3"] = "Init => IndInv and IndInv /\\ Next => IndInv': " + ("NoError" if ok else "ERROR")
+        if not ok:
+            rep.violation("cache-design-inductive", {"apalache": (a1.stdout + a2.stdout)[-1500:]})
+        a3 = apa(["--init=Init", "--inv=CacheTransparent", "--length=14", "MC_CacheDesignPinned.tla"])
+        if "The outcome is: Error" not in (a3.stdout + a3.stderr):
+            raise common.MachineryError("vacuity guard: Apalache finds no violation of CacheTransparent for the pinned tree's deviation")
+        out["apalache_deviation"] = "counterexample found, as it must"
+    else:
+        out["apalache"] = "skipped: apalache-mc not on PATH"
+    return out
+
+
 def run_history(arg) -> dict:
     """a fresh process per history (plain fork: pool workers may not start multiprocessing children)"""
     history, adversarial = arg
@@ -250,6 +310,7 @@ def main() -> int:
     if not pinned_violated:
         raise common.MachineryError("vacuity guard: the named deviation NoClearBeforeSwitchPass no longer violates CacheTransparent in the model")
     rep.extra["design_states"] = res["distinct"]
+    rep.extra["unbounded_design"] = unbounded_design(rep, thorough)
     # histories: all of length 2 (and 3 in thorough / a random sample in quick), last call observed
     hist = [(c,) for c in CALLS] + list(itertools.product(CALLS, repeat=2))
     h3 = list(itertools.product(CALLS, repeat=3))
@@ -311,8 +372,8 @@ def main() -> int:
     if len(got) != len(muts) or got[-1][1] != "stale-hit" and not any(g[1] == "stale-hit" for g in got):
         raise common.MachineryError(f"C11 self-test: corrupted histories accepted or stale hit not recognised: {got}")
     rep.extra["selftest_corrupted_rejected"] = len(muts)
-    rep.traces = len(cases)
-    rep.evaluations = len(hist)
+    rep.traces = len(cases) + len(pcases)
+    rep.evaluations = len(hist) + len(pres_in)
     rep.nontrivial = len({tuple(h) for h in meta if len(h) >= 2})
     rep.extra["events_validated"] = sum(len(c["events"]) for c in cases)
     rep.rule = (f"all histories of length <=2 over {len(CALLS)} calls (decompile of structured / fallback / aborting routine sets, compile of valid, failing, macro, "
